@@ -213,6 +213,15 @@ def run_case(chain, cfg, channel):
         t = _pytrs.Tract(txt)
         t.parse(**cfg_kwargs(cfg))
         return t.qqs
+    if channel in ('all_title', 'all_lower', 'all_title_plss', 'all_lower_after_lots'):
+        # the word ALL in the cases in which descriptions usually write it
+        assert chain == ('ALL',)
+        if channel == 'all_title_plss':
+            d = _pytrs.PLSSDesc('T154N-R97W Sec 14: All', config=cfg_text(cfg), parse_qq=True)
+            assert len(d.tracts) == 1
+            return d.tracts[0].qqs
+        txt = {'all_title': 'All', 'all_lower': 'all', 'all_lower_after_lots': 'Lots 1 - 4, all'}[channel]
+        return _pytrs.Tract(txt, parse_qq=True, config=cfg_text(cfg)).qqs
     if channel == 'slash':
         txt = ''.join(SL.get(c, c) for c in chain)
         return _pytrs.Tract(txt, parse_qq=True, config=cfg_text(cfg)).qqs
@@ -295,6 +304,9 @@ def run_unit(unit, tier):
                     check_case(acc, chain, cfg, 'stored_maxonly')
                 if chain != ('ALL',):
                     check_case(acc, chain, cfg, 'slash')
+                else:
+                    for ch in ('all_title', 'all_lower', 'all_title_plss', 'all_lower_after_lots'):
+                        check_case(acc, chain, cfg, ch)
     return acc.result()
 
 
